@@ -7,9 +7,9 @@
 (* can report only minimal rejected expressions.                           *)
 (*                                                                         *)
 (*   Chains(d): leaf classes wrapped in up to d one-hole contexts          *)
-(*              (21 contexts: Option Vec HashSet BTreeSet & Result<T>,     *)
+(*              (22 contexts: Option Vec HashSet BTreeSet & Result<T>,     *)
 (*              map value/key x {HashMap,BTreeMap}, Result ok/err arm,     *)
-(*              every slot of 2-,3-,4-tuples).                             *)
+(*              the 1-tuple, every slot of 2-,3-,4-tuples).                *)
 (*   Pairs    : binary nodes (tuple, Result, map value) whose two          *)
 (*              arguments are both composite (depth 2).                    *)
 (***************************************************************************)
